@@ -201,6 +201,42 @@ def bracket_case(rng, material, mode=None):
     return c
 
 
+def scale_time_to_creep(case, target):
+    """rescale the time axis (by a power of two: exact) so that the worst point of tube 0 collects about `target`
+    creep damage per represented day; returns True when done"""
+    d = indep_damages(case)[0]
+    if d is None:
+        return False
+    worst = float(np.max(np.mean(d[0], axis=0)))
+    if not (worst > 0 and math.isfinite(worst)):
+        return False
+    f = 2.0 ** round(math.log2(target / worst))
+    for t in case["tubes"]:
+        t["times"] = np.asarray(t["times"], dtype=float) * f
+    case["period"] = float(case["period"] * f)
+    return True
+
+
+def short_life_case(rng, material, mode):
+    """several represented days and a load so severe that the envelope is crossed INSIDE the stored days (life
+    between 1 and days): the time axis is rescaled so that the worst point collects 0.25-0.45 creep damage per day.
+    Extrapolation rules that treat N below and above the number of stored days differently are exercised here only."""
+    days = rng.choice([3, 4, 6])
+    c = gen_case(rng, regime="crossing", material=material, mode=mode, days=days, ntubes=1, period=24.0)
+    d = indep_damages(c)[0]
+    if d is None:
+        return c
+    worst = float(np.max(np.mean(d[0], axis=0)))
+    if not (worst > 0 and math.isfinite(worst)):
+        return c
+    # creep damage is linear in the time scale; a power of two keeps every time and the day boundaries exact
+    f = 2.0 ** round(math.log2(rng.uniform(0.25, 0.45) / worst))
+    t = c["tubes"][0]
+    t["times"] = np.asarray(t["times"], dtype=float) * f
+    c["period"] = float(c["period"] * f)
+    return c
+
+
 def case_to_json(case):
     return dict(material=case["material"], mode=case["mode"], period=case["period"], days=case["days"],
                 regime=case.get("regime"),
